@@ -30,7 +30,7 @@ Definition read_tag (bs : list Z) : list Z * stream :=
   let after_clear := {| s_pos := s_pos after_read; s_fail := false |} in
   let after_putback := if s_fail after_clear then after_clear
                        else {| s_pos := s_pos after_clear - n; s_fail := false |} in
-  (until_nul (firstn (Z.to_nat n) bs), after_putback).
+  (firstn (Z.to_nat n) bs, after_putback).      (* repaired: the whole tag, null characters included *)
 
 Fixpoint starts_with (p bs : list Z) : bool :=
   match p, bs with
@@ -41,10 +41,11 @@ Fixpoint starts_with (p bs : list Z) : bool :=
 Definition MAGIC_MAT : list Z := [77; 65; 84; 76; 65; 66].   (* "MATLAB" *)
 Definition MAGIC_TEX : list Z := [97; 115; 99; 105; 105].    (* "ascii" *)
 
+Definition is_text (b : Z) : bool := ((32 <=? b) && (b <=? 126)) || ((9 <=? b) && (b <=? 13)).
 Definition identify (f : fmt) (tag : list Z) (fl : file) : bool :=
   match f with
   | FBin => true
-  | FTxt => f_ascii fl
+  | FTxt => forallb is_text tag && f_ascii fl      (* repaired: every byte of the tag printable or white space *)
   | FTex => starts_with MAGIC_TEX tag
   | FMat => starts_with MAGIC_MAT tag
   end.
